@@ -99,7 +99,8 @@ func (ps *ProcessSet) Tracer() tracing.ITracer { return ps.tracer }
 func (ps *ProcessSet) Locator() data.IFlowDataLocator { return ps.locator }
 
 func (ps *ProcessSet) StartAll(ctx context.Context) error {
-	go ps.run(ctx)
+	sender := ps.tracer.RegisterSender()
+	go ps.run(ctx, sender)
 
 	for _, process := range ps.executes {
 		err := process.StartAll(ctx)
@@ -130,7 +131,9 @@ func (ps *ProcessSet) WaitUntilComplete(ctx context.Context) (complete bool) {
 	return
 }
 
-func (ps *ProcessSet) run(ctx context.Context) {
+func (ps *ProcessSet) run(ctx context.Context, sender tracing.ISenderHandle) {
+	defer sender.Done()
+
 	for {
 		select {
 		case ch := <-ps.mch:
